@@ -209,6 +209,13 @@ class ForcePlatformsDataBlock(Block):
         if not isinstance(platform, ForcePlatformData):
             raise ValueError("platform must be a ForcePlatformData instance")
 
+        platform_frames = len(platform.application_point)
+        if platform_frames != self.n_frames:
+            raise ValueError(
+                f"Platform has {platform_frames} frames, "
+                f"but the block has {self.n_frames}"
+            )
+
         if channel is None:
             channel = len(self._platforms)
         if channel in self._plat_map:
